@@ -31,7 +31,7 @@
    the harness built the MonitorConfig itself with WithEventTypes(k_types) - no watchEvent,
    no loader.  Either way the model's configuration is [effective_types] of the declaration
    and the specification judges against the DECLARED list ([P_decl]). *)
-From Verif Require Import Common Json C08_Model C08_Spec.
+From Verif Require Import Common Json C08_Model C08_Spec C08_Text.
 
 (* implementation's observation of one delivery *)
 Record iobs := mkI {
@@ -177,9 +177,18 @@ Definition replay_ok (c : case) : bool :=
 Definition cache0_eqb : option (list (N * N)) -> option (list (N * N)) -> bool :=
   option_eqb (list_eqb (pair_eqb N.eqb N.eqb)).
 
+(* the value domain (C08_Text.v): every object state and every output of the oracle is a JSON
+   value as the theorems about the checksum take them ([val_ok]: integral numbers are JNum, any
+   other number a non-integer literal) - the hypothesis [projs_ok] of
+   C08_checksum_model_is_projection_model / C08_modified_value_change_triggers, checked on every case *)
+Definition values_ok (c : case) : bool :=
+  forallb (fun s => val_ok (snd s)) (k_states c)
+  && forallb (fun a => forallb val_ok (fst a)) (k_answers c).
+
 Definition agrees (c : case) : bool :=
   cache0_eqb (model_cache0 c) (k_cache0 c)
-  && list_eqb iobs_eqb (model_obs c) (k_obs c) && answers_canonical c && replay_ok c && eff_ok c.
+  && list_eqb iobs_eqb (model_obs c) (k_obs c) && answers_canonical c && replay_ok c && eff_ok c
+  && values_ok c.
 
 Definition mismatches (cs : list case) : list N := indices_where (fun c => negb (agrees c)) cs.
 
@@ -213,10 +222,18 @@ Fixpoint fr_steps_ok (c : case) (h : list dstep) (os : list iobs) : bool :=
 Definition fr_case_ok (c : case) : bool :=
   negb (k_filter c) || fr_steps_ok c (steps_of c) (k_obs c).
 
+(* the clause about values ([modified_values_ok], C08_Text.v): every Modified delivery of a known
+   object fires iff Modified is in the declared list and the projection - /usr/bin/jq's outputs,
+   compared STRUCTURALLY as JSON values - differs from the last one known *)
+Definition values_case_ok (c : case) : bool :=
+  modified_values_ok (jq_of c) (declared_types (decl_of c)) (k_filter c)
+                     (known_of_list (jq_of c) (k_filter c) (listed_of c)) (changes_of c)
+                     (map (spec_obs c) (k_obs c)).
+
 Definition P_case (c : case) : bool :=
   P_decl (jq_of c) (decl_of c) (k_filter c) (listed_of c) (changes_of c)
          (map (spec_obs c) (k_obs c))
-  && fr_case_ok c.
+  && fr_case_ok c && values_case_ok c.
 
 Definition spec_violations (cs : list case) : list N := indices_where (fun c => negb (P_case c)) cs.
 
